@@ -59,8 +59,33 @@ def value_reaches(fn, site, vnode, value=0):
     return False
 
 
+def _null_tested(u, fn):
+    """ids of the pointer parameters the function itself compares with NULL"""
+    ptr_params = {p["id"]: p for p in fn.params if (u.type(p["t"]) or {}).get("k") == "ptr"}
+    tested = set()
+    for bid in fn.reachable_blocks():
+        c = fn.blocks[bid].cond
+        if c is None:
+            continue
+        for y, _ in walk(c):
+            if y.get("k") == "bin" and y["op"] in ("==", "!="):
+                for a, b in ((y["x"], y["y"]), (y["y"], y["x"])):
+                    if (const_val(a) == 0 or const_val(core.strip_casts(a)) == 0 or "NULL" in core.macros(a)) and core.is_ref(core.strip_casts(b)) and core.strip_casts(b).get("id") in ptr_params:
+                        tested.add(core.strip_casts(b)["id"])
+    return tested
+
+
 def null_copy_rule(rep, u, hdr):
     n = 0
+    # which (function, parameter index) admit NULL by their own test and still run (value_reaches some later block)
+    admit = {}
+    for fn in u.function_list:
+        if fn.relfile() != hdr or not fn.has_cfg:
+            continue
+        t_ = _null_tested(u, fn)
+        for i, p in enumerate(fn.params):
+            if p["id"] in t_:
+                admit[(fn.name, i)] = True
     for fn in u.function_list:
         if fn.relfile() != hdr or not fn.has_cfg:
             continue
@@ -69,6 +94,12 @@ def null_copy_rule(rep, u, hdr):
             continue
         # parameters the function itself compares with NULL
         tested = set()
+        # ... and parameters it hands unchanged to a sibling that does (one arm delegates, another copies itself)
+        for pos_, root_, call_, ps_ in fn.calls():
+            for i_, a_ in enumerate(call_.get("args", [])):
+                a0 = core.strip_casts(a_)
+                if core.is_ref(a0) and a0.get("id") in ptr_params and admit.get((call_.get("fn"), i_)) and call_.get("fn") != fn.name:
+                    tested.add(a0["id"])
         for bid in fn.reachable_blocks():
             c = fn.blocks[bid].cond
             if c is None:
